@@ -19,28 +19,56 @@ EXEC_ASSUME = ["a shell builtin (printf) delivers the probe as one Write and end
 
 def sig_exec(f):
     k = f["kind"]
+    if f.get("driver") == "forloop":
+        return "for:" + k
     return "exec:" + k
 
 
-def exec_prop(pid, results, extra=None, n_quick=280, n_thorough=4000, more=()):
-    return dict(
+# second driver of C02: the expansion of `for:` loops into the per-call command list (coq/Exec/ForLoop.v)
+FOR_RULE = ("for-loop expansion (driver forloop): generated Taskfiles whose cmds and deps hold `for:` loops of every form "
+            "(explicit list 0-4 items with duplicates / blanks, matrix 1-3 keys x 0-3 values incl. empty rows and ref: rows, "
+            "var + split with 1- and n-character separators, var whitespace fields, list and map variables, sources / "
+            "generates, as:, loops over task calls with vars, plain / null / defer entries around them) are compiled by the "
+            "REAL Executor.CompiledTask / FastCompiledTask; the expanded Cmds / Deps in order are compared in Coq with the "
+            "model's expand (agree) and judged by mon_for (declaration order, list order, matrix lexicographic order first "
+            "key slowest; a map loop up to the order of its own iterations); a sample is RUN by the real Executor and the "
+            "order of the output lines judged by the same specification. shard 0 enumerates all list / matrix shapes. "
+            "non-trivial = at least 2 expanded entries; distinct = distinct inputs")
+FOR_ASSUME = ["for-loop model: values are ASCII text (strings.Fields on non-ASCII white space is not modelled); "
+              "{{.ITEM.K}} is only used under a matrix loop; matrix keys are distinct (the YAML decoder's ordered map)",
+              "for: {var: X} with X a map iterates in Go map order (documented as random): the model takes the order as an "
+              "external permutation, the monitor accepts any order of that loop's own iterations",
+              "for: sources / generates: the glob result (fingerprint.Globs) is an oracle list"]
+FOR_DRIVER = dict(name="forloop", n_quick=120, n_thorough=3000, shard=1000,
+                  results={"R_for_agree": "agree", "R_for_mon": "mon", "R_for_map": "mon", "R_for_run": "mon"})
+
+
+def exec_prop(pid, results, extra=None, n_quick=280, n_thorough=4000, more=(), forloop=False):
+    p = dict(
         src="Properties/%s.v" % pid, target="Properties/%s.vo" % pid, more_src=list(more),
         support=["Exec/Model.vo", "Exec/Monitors.vo", "Exec/Replay.vo"], run_targets=["Run/ExecCases.vo"],
         drivers=[dict(name="exec", n_quick=n_quick, n_thorough=n_thorough, shard=70, extra=extra,
                       results=dict(results, R_agree="agree"))],
         signature=sig_exec, rule=EXEC_RULE, assumptions=EXEC_ASSUME, trusted=EXEC_TRUSTED)
+    if forloop:
+        p["drivers"].append(dict(FOR_DRIVER))
+        p["support"] = p["support"] + ["Exec/ForLoop.vo"]
+        p["run_targets"] = p["run_targets"] + ["Run/ForCases.vo"]
+        p["rule"] = EXEC_RULE + "; " + FOR_RULE
+        p["assumptions"] = EXEC_ASSUME + FOR_ASSUME
+    return p
 
 
 PROPS = {
     "C01": exec_prop("C01", {"R_C01": "mon", "R_waits": "mon"}, more=["Properties/C01deps.v", "Properties/C02seal.v"]),
     "C02": exec_prop("C02", {"R_C02": "mon", "R_calls": "mon", "R_waits": "mon"},
-                     more=["Properties/C02calls.v", "Properties/C02seal.v"]),
+                     more=["Properties/C02calls.v", "Properties/C02seal.v", "Properties/C02for.v"], forloop=True),
     "C03": exec_prop("C03", {"R_C03": "mon", "R_C03s": "mon", "R_C01": "mon", "R_calls": "mon"},
                      more=["Properties/C03fail.v", "Properties/C03status.v", "Properties/C02calls.v"]),
     "C06": exec_prop("C06", {"R_C06": "mon", "R_calls": "mon", "R_waits": "mon"},
                      more=["Properties/C06outcome.v", "Properties/C02calls.v", "Properties/C02seal.v"]),
     "C07": exec_prop("C07", {"R_C07": "mon", "R_eager": "mon"}, extra="cyclic=1,fanout=1", more=["Properties/C07progress.v", "Properties/C07term.v"]),
-    "C13": exec_prop("C13", {"R_C13": "mon", "R_calls": "mon", "R_C01": "mon"},
+    "C13": exec_prop("C13", {"R_C13": "mon", "R_calls": "mon", "R_C01": "mon"}, extra="prompts=1",
                      more=["Properties/C02calls.v", "Properties/C01deps.v"]),
     "C14": exec_prop("C14", {"R_C14": "mon", "R_C02": "mon"}, more=["Properties/C14defer.v"]),
 }
